@@ -2,7 +2,10 @@ package main
 
 import (
 	"fmt"
+	"github.com/pip-services3-gox/pip-services3-expressions-gox/calculator"
+	"github.com/pip-services3-gox/pip-services3-expressions-gox/calculator/variables"
 	"strings"
+	"time"
 
 	"github.com/pip-services3-gox/pip-services3-expressions-gox/variants"
 )
@@ -105,8 +108,39 @@ func propC03(c *Ctx) {
 			}
 			in = string(b)
 		}
-		k := []string{"g", "e", "m", "c:44:34", "c:59,9:34,39"}[c.Rng.Intn(5)]
+		k := []string{"g", "e", "m", "c:44:34", "c:59,9:34,39", "c:1046:171", "C:59:39,8220", "c:65292:12300,8222"}[c.Rng.Intn(8)]
 		runCrashTok(c, k, allOpts[c.Rng.Intn(128)], in)
+		if strings.HasPrefix(strings.ToLower(k), "c:") {
+			// CSV soup built from the configuration's own separators and quotes (multi-byte ones included):
+			// lone, doubled and unclosed quotes at every position, in particular at the very end
+			p := strings.Split(k, ":")
+			alpha := append(append([]rune("ab\n\r,\"é"), parseRunes(p[1])...), parseRunes(p[2])...)
+			alpha = append(alpha, parseRunes(p[2])...)
+			var sb strings.Builder
+			for j := c.Rng.Intn(7); j > 0; j-- {
+				sb.WriteRune(alpha[c.Rng.Intn(len(alpha))])
+			}
+			runCrashTok(c, k, allOpts[c.Rng.Intn(128)]|64*c.Rng.Intn(2), sb.String())
+		}
+	}
+	// every string of length <= 2 over {a , quote, separator} for the multi-byte CSV configurations, decoding on and off
+	for _, k := range []string{"c:1046:171", "c:65292:12300,8222", "C:59:39,8220"} {
+		p := strings.Split(k, ":")
+		alpha := append(append([]rune("a,\n"), parseRunes(p[1])...), parseRunes(p[2])...)
+		for _, x := range alpha {
+			runCrashTok(c, k, 64, string([]rune{x}))
+			for _, y := range alpha {
+				runCrashTok(c, k, 64, string([]rune{x, y}))
+				runCrashTok(c, k, 0, string([]rune{x, y}))
+				for _, z := range alpha {
+					runCrashTok(c, k, 64, string([]rune{x, y, z}))
+				}
+			}
+		}
+	}
+	// object histories: no sequence of calls on one calculator may panic either
+	for i := 0; i < n/10+20; i++ {
+		runCalcHistory(c, g)
 	}
 	if crashTemplates != nil {
 		crashTemplates(c)
@@ -115,6 +149,77 @@ func propC03(c *Ctx) {
 }
 
 var crashTemplates func(c *Ctx)
+
+// a random history of calls on ONE calculator: SetExpression / Evaluate / EvaluateUsingVariables / Clear /
+// edits of the default variables and of a caller-supplied collection that is reused across evaluations
+func runCalcHistory(c *Ctx, g *exGen) {
+	exprs := []string{"x * 2", "x + 1", "b * 2", "a + b", "Max(a, b)", "a[0]", "1 +", "y", "'s' + x"}
+	var steps []string
+	nSteps := 3 + c.Rng.Intn(6)
+	for i := 0; i < nSteps; i++ {
+		switch c.Rng.Intn(8) {
+		case 0, 1:
+			steps = append(steps, "set:"+strRunes(exprs[c.Rng.Intn(len(exprs))]))
+		case 2:
+			steps = append(steps, "eval")
+		case 3:
+			steps = append(steps, "evalv")
+		case 4:
+			steps = append(steps, "clear")
+		case 5:
+			steps = append(steps, "vclear")
+		case 6:
+			steps = append(steps, "vadd:"+[]string{"a", "b", "x", "A"}[c.Rng.Intn(4)])
+		default:
+			steps = append(steps, "vrem:"+[]string{"a", "b", "x"}[c.Rng.Intn(3)])
+		}
+	}
+	runCalcHistorySteps(c, steps)
+}
+
+func runCalcHistorySteps(c *Ctx, steps []string) {
+	op := "calchist " + strings.Join(steps, " ")
+	c.record(op, len(steps) >= 4)
+	c.count("calculator-history")
+	at := ""
+	st := safeCallT(5*time.Second, func() string {
+		calc := calculator.NewExpressionCalculator()
+		own := variables.NewVariableCollection()
+		for _, n := range []string{"a", "b"} {
+			own.Add(variables.NewVariable(n, vInt(3)))
+		}
+		for i, s := range steps {
+			at = fmt.Sprintf("step %d (%s)", i, s)
+			p := strings.SplitN(s, ":", 2)
+			switch p[0] {
+			case "set":
+				calc.SetExpression(string(parseRunes(p[1])))
+			case "eval":
+				if r, err := calc.Evaluate(); (r == nil) == (err == nil) {
+					return "neither-or-both"
+				}
+			case "evalv":
+				if r, err := calc.EvaluateUsingVariables(own); (r == nil) == (err == nil) {
+					return "neither-or-both"
+				}
+			case "clear":
+				calc.Clear()
+			case "vclear":
+				own.Clear()
+				calc.DefaultVariables().Clear()
+			case "vadd":
+				own.Add(variables.NewVariable(p[1], vInt(5)))
+			case "vrem":
+				own.RemoveByName(p[1])
+				calc.DefaultVariables().RemoveByName(p[1])
+			}
+		}
+		return ""
+	})
+	if st != "" {
+		c.fail(Failure{Kind: "oracle", Op: op, Impl: st, Note: "a sequence of calls on one calculator must return normally, each evaluation with exactly one of a result or an error; failed at " + at})
+	}
+}
 
 func replayC03(c *Ctx, op string) {
 	f := strings.Fields(op)
@@ -129,6 +234,8 @@ func replayC03(c *Ctx, op string) {
 		runCrashTok(c, f[1], o, in)
 	case "tok":
 		replayTok(c, op)
+	case "calchist":
+		runCalcHistorySteps(c, f[1:])
 	default:
 		replayEval(c, op)
 		if tplReplay != nil {
